@@ -3,26 +3,26 @@
 import json, sys
 pid, tag = sys.argv[1], sys.argv[2]
 USED = {
- "C01": "truncating the flat group size product to the numInGroup type; filling numVarDataFields with the group count",
+ "C01": "truncating the flat group size product to the numInGroup type; filling numVarDataFields with the group count; advancing the validator's running offset by += instead of = for composite members with explicit offsets",
  "C02": "advancing the validator's running offset by += instead of = for composite members with explicit offsets; deriving the accessor of the 3rd+ sibling group from the first group",
  "C03": "using the field's own presence attribute instead of the actual presence when deciding whether an entry is constant-only; emitting the ordinary (sizeof-advancing) cursor accessor for a last field of built-in primitive type",
- "C04": "nested group cursor_subrange(c, pos) passing size() as the length",
+ "C04": "nested group cursor_subrange(c, pos) passing size() as the length; the cursor accessors' running offset ignoring the gap of a custom offset on a built-in-typed field; using the field's own presence attribute when deciding whether an entry is constant-only",
  "C05": "typing the trait-level size_bytes count parameters with the blockLength type; locating the 3rd+ <data> member after the first data member",
- "C06": "saving the parent group's block length after it was overwritten in size_bytes_checked's on_group; member-less visit_children advancing with += block_length",
- "C07": "the 'previous view' lambda calling NAME() unqualified so that a member named like a local clashes",
- "C08": "value_fits_into_type parsing uint32 as uint64",
- "C09": "validate_data_header consulting the group-header cache",
+ "C06": "saving the parent group's block length after it was overwritten in size_bytes_checked's on_group; member-less visit_children advancing with += block_length; an early-out in on_group when the wire blockLength is 0",
+ "C07": "the 'previous view' lambda calling NAME() unqualified so that a member named like a local clashes; registering the <data> include dependency under the reference's spelling instead of the composite's name",
+ "C08": "value_fits_into_type parsing uint32 as uint64; is_sbe_symbolic_name skipping the first character",
+ "C09": "validate_data_header consulting the group-header cache; passing the include chain to the nested parser with std::move",
  "C10": "re-introducing sizeof(length)+size() overflow in dynamic_array_ref::data_checked; static_array_ref::raw() dropping the end pointer",
- "C11": "guarding the last-enum / last-set cursor setter with cursor_compatible instead of cursor_writeable",
+ "C11": "guarding the last-enum / last-set cursor setter with cursor_compatible instead of cursor_writeable (pick something that is NOT a cursor setter guard)",
  "C12": "casting the block length to the group's difference_type in the iterator's operator+=; building end() as begin()+difference_type(size())",
  "C13": "erase(first,last) copying new_size elements instead of the tail; resize(count,value) filling count elements from the old end",
  "C14": "the constant-evaluation branch of string_length counting the terminator; pad() skipping the single NUL when exactly one element is left",
  "C15": "casting after the shift (static_cast<T>(b << n) / static_cast<T>(1 << n)) in the choice setter or getter",
  "C16": "rewriting <=, >, >= of pre-C++20 optionals in terms of <; treating every NaN as null for floating-point optionals",
  "C17": "filling a group's numVarDataFields with the nested group count; typing fill_group_header's count parameter with the blockLength type",
- "C18": "set choice since_version taken from the enclosing set",
+ "C18": "set choice since_version taken from the enclosing set; type_traits of the built-in optional types reporting presence required",
  "C19": "member-less visit_children advancing the cursor with += block_length; visit_children of a composite reporting constant members",
- "C20": "write_file checking only operator<< and letting the destructor close the file",
+ "C20": "write_file checking only operator<< and letting the destructor close the file; write_file checking only rdbuf()->close()",
 }
 
 p = [json.loads(l) for l in open('/verif/properties.jsonl') if json.loads(l)['id'] == pid][0]
